@@ -29,7 +29,8 @@ def plain_twin_events(u, U, cases):
             if t % nshards != shard:
                 continue
             sigs = [u.sig(i, s + 1) for s, i in enumerate(idx)]
-            plain = [downgrade(s) for s in sigs]
+            # all inputs plain, or (every third case) only the first one
+            plain = [downgrade(s) if (t % 3 or k == 0) else s for k, s in enumerate(sigs)]
             warned = []
 
             def run_plain():
@@ -43,7 +44,8 @@ def plain_twin_events(u, U, cases):
             e = law_event(u, 'plain/%s-%s-%d' % (op, '.'.join(map(str, idx)), t), 'C15_PlainInputsSameParams', results_thunks, cmp='ps',
                           case={'op': op, 'ins': [U[i] for i in idx], 'fl': fl})
             # ... together with a DeprecationWarning, and the result is as well-formed as with upgraded inputs ('+depths' map)
-            e['side'] = bool(warned and warned[0]) and all(r.get('hasdepths', True) for r in e['results'] if r['tag'] == 'sig')
+            # (an operation that raises before it gets to look at the plain input owes no warning)
+            e['side'] = e['results'][1]['tag'] != 'sig' or (bool(warned and warned[0]) and all(r.get('hasdepths', True) for r in e['results'] if r['tag'] == 'sig'))
             yield e
     return gen
 
@@ -129,6 +131,14 @@ def run(check, tier, seed, scratch):
             dup_name_masks(u2, U2),
             alggen.forwards_events(uo, UO, u2, U2, sample=0.008 if quick else 0.3, seed=seed, hide=True),
             plain_twin_events(u2, U2, twin), unevaluable_events(U2, 3000 if quick else 80000, seed + 17)]
+    # the same over signatures WITH metadata (two default values, two annotations): "the same parameters" includes what they carry
+    UM = tlc.export_universe(scratch, 'ab', ['args'], ['kwargs'], 2, dvs=[2, 3], ans=[0, 1, 2])
+    twin_m = []
+    for _ in range(3000 if quick else 60000):
+        op = rnd.choice(['merge', 'merge', 'embed', 'merge3'])
+        ar = 3 if op == 'merge3' else 2
+        twin_m.append(('merge' if op == 'merge3' else op, tuple(rnd.randrange(len(UM)) for _ in range(ar)), flags(uva=rnd.random() < .8, uvk=rnd.random() < .8)))
+    gens.append(plain_twin_events(Universe(UM), UM, twin_m))
     for op in ('merge', 'embed', 'mask', 'forwards'):
         gens.append(alggen.cex_events(cu, op, [c for o, c in cex if o == op], tag='modelcex-' + op))
     run_trace_leg(check, scratch, 'robustness', alggen.chain(*gens), WANT)
